@@ -156,6 +156,13 @@ def observe_func(d, fn, imports=None):
             last = v["name"]
             vartype[v["name"]] = v["type"]
     threads = fn["threads"]
+    # a function literal given as provider forwards to the instrumented function: recognise it by the function it calls
+    for th in threads:
+        for op in th:
+            if op["op"] == "call" and isinstance(op.get("prov"), str) and op["prov"].startswith("Provide:func("):
+                m = re.search(r"return (New\w+)\(", op["prov"])
+                if m and "Provide:" + m.group(1) in pidx:
+                    op["prov"] = "Provide:" + m.group(1)
     # pass 1: variable definitions
     struct_type_of_var = {}
     for th in threads:
